@@ -4,7 +4,8 @@
    GENERATED from /repo on every run (Generated/Gcirc.v, Generated/Coord.v). *)
 From Coq Require Import Reals ZArith QArith List.
 Import ListNotations.
-From PV Require Import C18.Spec C18.SpecProofs Generated.Gcirc Generated.Coord C18.Model C18.Proofs C18.Angles C18.RoundTrip C18.FloatModel.
+From PV Require Import C18.Spec C18.SpecProofs Generated.Gcirc Generated.Coord C18.Model C18.Stripes C18.Proofs C18.Angles C18.RoundTrip C18.FloatModel
+  C18.Branches C18.FloatGuard.
 Open Scope R_scope.
 
 (* ---- gcirc ---- *)
@@ -213,3 +214,115 @@ Print Assumptions C18_angles_x_inverse.
 (* non-vacuity: concrete instances *)
 Example C18_witness_stripe : (stripe_to_incl_gen 25 == 75 # 2)%Q /\ (stripe_to_incl_gen 86 == 10)%Q.
 Proof. split; reflexivity. Qed.
+
+(* ==== Round 5: the branch logic around the formulas ==== *)
+
+(* ---- gcirc: the arcsin guard ---- *)
+
+(* the square-root argument lies in [0, 1] for EVERY value of units (no validity hypothesis); this is what makes the guard
+   np.minimum(sindis, 1.0) of /repo 21dc9f6 the identity on exact values (used inside C18_gcirc_is_asin_sqrt, whose proof script
+   accepts the guarded and the unguarded source) *)
+Theorem C18_hav_range_all_units : forall units ra1 dec1 ra2 dec2, 0 <= gcirc_h units ra1 dec1 ra2 dec2 <= 1.
+Proof. exact gcirc_h_range_all. Qed.
+Print Assumptions C18_hav_range_all_units.
+
+(* in the abstract rounding model the UNGUARDED arcsin argument exceeds 1 for some admissible rounding errors at the antipode
+   (IEEE arcsin: NaN -- the defect found on the real code in this round); the guard makes it legal and changes no legal value *)
+Theorem C18_float_model_needs_guard :
+  (exists d3, Rabs d3 <= eps /\ hav_exact (PI / 2) 0 1 1 = 1 /\
+              1 < sqrt (hav_model (PI / 2) 0 1 1 0 0 0 0 d3 0 0 0 0 0 0)) /\
+  (forall s, 0 <= s -> 0 <= Rmin s 1 <= 1 /\ (s <= 1 -> Rmin s 1 = s)).
+Proof. exact float_model_needs_guard. Qed.
+Print Assumptions C18_float_model_needs_guard.
+
+(* ---- stripes: the branch stripe > 46 ---- *)
+
+Theorem C18_eta_of_stripe : forall s, (stripe_to_eta_gen s == eta_doc s)%Q.
+Proof. exact eta_of_stripe. Qed.
+Print Assumptions C18_eta_of_stripe.
+
+(* a southern stripe s (47 .. 118) is the great circle of stripe s - 72; in particular stripe 82 is stripe 10 *)
+Theorem C18_southern_stripe_same_circle : forall s, (46 < s)%Z -> (s - 72 <= 46)%Z ->
+  (stripe_to_incl_gen s == stripe_to_incl_gen (s - 72))%Q.
+Proof. exact southern_same_circle. Qed.
+Print Assumptions C18_southern_stripe_same_circle.
+Example C18_witness_southern : (stripe_to_incl_gen 82 == stripe_to_incl_gen 10)%Q.
+Proof. exact southern_witness. Qed.
+
+(* with the branch every stripe 0 .. 118 is inclined by -87.5 .. 90 degrees; the jump is between 46 and 47 *)
+Theorem C18_incl_range : forall s, (0 <= s <= 118)%Z -> (- (175 # 2) <= stripe_to_incl_gen s <= 90)%Q.
+Proof. exact incl_range. Qed.
+Print Assumptions C18_incl_range.
+Example C18_witness_incl_range : (- (175 # 2) <= stripe_to_incl_gen 86 <= 90)%Q.
+Proof. exact incl_range_witness. Qed.
+Example C18_witness_incl_jump : (stripe_to_incl_gen 46 == 90)%Q /\ (stripe_to_incl_gen 47 == - (175 # 2))%Q.
+Proof. exact incl_jump_at_47. Qed.
+
+(* stripes 10 and 82 have inclination 0: (mu, nu) = (RA, Dec) *)
+Theorem C18_equatorial_stripes : forall mu nu,
+  munu_to_radec_M 10 mu nu = vec (deg nu) (deg mu - node_rad) /\
+  munu_to_radec_M 82 mu nu = vec (deg nu) (deg mu - node_rad).
+Proof. exact equatorial_stripes. Qed.
+Print Assumptions C18_equatorial_stripes.
+
+(* ---- normalisation of longitudes: the round trips for EVERY mu / RA, compared after reduction to [0, 2 PI) ---- *)
+
+Theorem C18_wrap_turn_range : forall x, 0 <= wrap_turn x < 2 * PI.
+Proof. exact wrap_turn_range. Qed.
+Print Assumptions C18_wrap_turn_range.
+
+Theorem C18_munu_roundtrip_mod_turn : forall mu nu incl node,
+  - (PI / 2) < nu < PI / 2 ->
+  let '(ra, dec) := m2r_angles mu nu incl node in
+  let '(mu', nu') := r2m_angles ra dec incl node in
+  wrap_turn mu' = wrap_turn mu /\ nu' = nu.
+Proof. exact munu_roundtrip_mod_turn. Qed.
+Print Assumptions C18_munu_roundtrip_mod_turn.
+
+Theorem C18_radec_roundtrip_mod_turn : forall ra dec incl node,
+  - (PI / 2) < dec < PI / 2 ->
+  let '(mu, nu) := r2m_angles ra dec incl node in
+  let '(ra', dec') := m2r_angles mu nu incl node in
+  wrap_turn ra' = wrap_turn ra /\ dec' = dec.
+Proof. exact radec_roundtrip_mod_turn. Qed.
+Print Assumptions C18_radec_roundtrip_mod_turn.
+Example C18_witness_roundtrip_mod_turn :
+  let '(ra, dec) := m2r_angles 7 0 (1 / 2) 1 in
+  let '(mu', nu') := r2m_angles ra dec (1 / 2) 1 in wrap_turn mu' = wrap_turn 7 /\ nu' = 0.
+Proof. exact (munu_roundtrip_mod_turn 7 0 (1 / 2) 1 witness_lat0). Qed.
+
+(* ---- x_to_angles: both branches of the latitude flag, the ranges, degenerate inputs ---- *)
+
+(* for EVERY input: azimuth in (-180, 180], polar angle in [0, 180] / latitude in [-90, 90] *)
+Theorem C18_x_to_angles_ranges : forall (lat : bool) x0 x1 x2,
+  let '(phi, th) := x_to_angles_gen atan2 lat x0 x1 x2 in
+  -180 < phi <= 180 /\ (if lat then -90 <= th <= 90 else 0 <= th <= 180).
+Proof. exact x_to_angles_ranges. Qed.
+Print Assumptions C18_x_to_angles_ranges.
+
+(* on unit vectors the divisor is non-zero and the arccos argument legal (finite result in numpy) ... *)
+Theorem C18_x_to_angles_defined_on_unit : forall x0 x1 x2,
+  x0 * x0 + x1 * x1 + x2 * x2 = 1 -> x_to_angles_defined x0 x1 x2.
+Proof. exact x_to_angles_defined_on_unit. Qed.
+Print Assumptions C18_x_to_angles_defined_on_unit.
+Example C18_witness_defined : x_to_angles_defined 0 0 1.
+Proof. exact (x_to_angles_defined_on_unit 0 0 1 witness_unit_001). Qed.
+
+(* ... and angles_to_x only produces such vectors, both conventions *)
+Theorem C18_angles_to_x_unit : forall lat phi theta,
+  let '(x0, x1, x2) := angles_to_x_gen lat phi theta in x_to_angles_defined x0 x1 x2.
+Proof. exact angles_to_x_unit. Qed.
+Print Assumptions C18_angles_to_x_unit.
+
+(* FULL statement "x_to_angles depends on the direction of its argument only" is FALSE of the faithful model: the source
+   divides by the squared norm.  (0, 0, 2) gets polar angle 60 instead of 0; (0, 0, 1/2) and the zero vector have an illegal
+   arccos argument / a zero divisor (NaN on the real code).  The property speaks of unit vectors only. *)
+Theorem C18_x_to_angles_scale_invariant_refuted :
+  ~ (forall c x0 x1 x2, 0 < c ->
+       x_to_angles_gen atan2 false (c * x0) (c * x1) (c * x2) = x_to_angles_gen atan2 false x0 x1 x2)
+  /\ x_to_angles_gen atan2 false 0 0 2 = (0, 60)
+  /\ x_to_angles_gen atan2 false 0 0 1 = (0, 0)
+  /\ ~ x_to_angles_defined 0 0 (1 / 2)
+  /\ ~ x_to_angles_defined 0 0 0.
+Proof. exact x_to_angles_scale_invariant_refuted. Qed.
+Print Assumptions C18_x_to_angles_scale_invariant_refuted.
